@@ -19,7 +19,9 @@ def check(run):
     rng = random.Random(run.seed + 505)
     run.rule = ("random multi-segment indexes with blocklimit 1..3 x random scored query trees x limits 1..6; "
                 "hits (documents, scores, order) judged by TLC against QuerySem!TopK; non-trivial = accepted case "
-                "whose result set is neither empty nor everything")
+                "whose result set is neither empty nor everything; Collector.tla model-checked (threshold soundness, "
+                "exact top-K, exact count) and every step of traced real collections (collect / threshold handed to "
+                "replace and skip_to_quality / final ranking / len) validated by CollectorTrace.tla")
     cases, meta = c01.build_cases(run, rng, 14 if quick else 150, 30 if quick else 40, ndocs=(6, 14), depth=3,
                                   paths=("unlimited", "limited", "terms"), scored_only=True, cmp="full", kinds=("ranked", "error"), ops=NOFUZZY, alt=True,
                                   limits=(1, 2, 3, 4, 6))
@@ -33,6 +35,16 @@ def check(run):
     meta += m2
     rejects = qobs.judge(run, cases)
     c01.report(run, "C05", cases, meta, rejects, "c05")
+    # the collector itself: design model (Collector.tla) and step-by-step validation of real collections
+    from harness import coltrace, tlc
+    for cfg in ("CollectorMC.cfg", "CollectorMC_collapse.cfg"):
+        res = tlc.run_tlc("Collector", cfg, timeout=600)
+        run.add_tlc("Collector/" + cfg, res)
+        if res.violation:
+            raise tlc.TLCError("Collector.tla: %s violated in the design model\n%s" % (res.violation, tlc.tail(res.stdout)))
+    pr = coltrace.check_collectors(run, rng, 8 if quick else 80, 25, "c05-collector")
+    if not pr:
+        run.machinery("vacuity: no collector trace contains a threshold handed to the matcher")
     run.extra["optimisation_engaged"] = qobs.ENGAGED.copy()
     if not qobs.ENGAGED.get("skipped") and not qobs.ENGAGED.get("replaced"):
         run.machinery("vacuity: no limited search engaged block skipping or matcher replacement")
